@@ -679,6 +679,8 @@ structure ClassSp where
   future : Bool
   fields : List FieldSp
   scope : Scope := .module
+  /-- `_required = [...]` written out in the class body (`none`: not written, typedpy computes it) -/
+  required : Option (List String) := none
 deriving Repr, Inhabited
 
 def elabFields (O : Oracles) (tm : TypeMap) (sc : Scope) (future : Bool) :
@@ -701,14 +703,53 @@ def defaultsOf : List (String × FieldRes) → List (String × PyVal)
 /-- `_required`: fields without default that are neither typing-optional nor listed in `_optional` -/
 def requiredOf : List (String × FieldRes) → List String
   | [] => []
-  | (n, .field _ true _) :: rest => n :: requiredOf rest
+  | (n, .field _ true none) :: rest => n :: requiredOf rest
   | _ :: rest => requiredOf rest
+
+/-- `_required` given explicitly (`required_fields_predefined`): the listed names stay, except that a field with a
+    default is removed; nothing is added -/
+def explicitReq (R : List String) : List (String × FieldRes) → List String
+  | [] => []
+  | (n, .field _ _ none) :: rest => if R.contains n then n :: explicitReq R rest else explicitReq R rest
+  | _ :: rest => explicitReq R rest
+
+def isField : FieldRes → Bool
+  | .field _ _ _ => true
+  | .dropped => false
+
+/-- the name is one of the class's fields (a dropped annotation declares none) -/
+def isFieldName (rs : List (String × FieldRes)) (n : String) : Bool := rs.any (fun p => p.1 == n && isField p.2)
+
+/-- a name listed in `_optional` AND in the explicit `_required` whose declaration declares no field at all is never
+    taken out of `_required`: refused as well -/
+def conflictDropped (R optNames : List String) (rs : List (String × FieldRes)) : Bool :=
+  rs.any (fun p => !isField p.2 && optNames.contains p.1 && R.contains p.1)
+
+/-- "optional cannot override prior required": a name that is optional (listed in `_optional`, or annotated with a
+    typing union with a None member), has no default, and is listed in the explicit `_required` -/
+def conflictOpt (R : List String) : List (String × FieldRes) → Bool
+  | [] => false
+  | (n, .field _ false none) :: rest => R.contains n || conflictOpt R rest
+  | _ :: rest => conflictOpt R rest
+
+def classOfReq (req : List String) (rs : List (String × FieldRes)) : FieldDecl :=
+  .struct { name := "K", required := req, addl := true, accepts := ["K"] } (fieldsOf rs) (defaultsOf rs)
 
 def classOf (rs : List (String × FieldRes)) : FieldDecl :=
   .struct { name := "K", required := requiredOf rs, addl := true, accepts := ["K"] } (fieldsOf rs) (defaultsOf rs)
 
 /-- the class statement: the class declaration it creates, or the exception class it raises -/
+def finishClass (req : Option (List String)) (optNames : List String) (rs : List (String × FieldRes)) : R FieldDecl :=
+  match req with
+  | none => .ok (classOf rs)
+  | some R =>
+    if conflictOpt R rs || conflictDropped R optNames rs then .error .valueErr
+    else .ok (classOfReq (explicitReq R rs ++ R.filter (fun n => !isFieldName rs n)) rs)
+
+/-- the names listed in `_optional` -/
+def optionalNames (fields : List FieldSp) : List String := (fields.filter (·.inOptional)).map (·.name)
+
 def elabClass (O : Oracles) (tm : TypeMap) (c : ClassSp) : R FieldDecl :=
-  bindE (elabFields O tm c.scope c.future c.fields) fun rs => .ok (classOf rs)
+  bindE (elabFields O tm c.scope c.future c.fields) (finishClass c.required (optionalNames c.fields))
 
 end Typedpy.Elab
